@@ -178,6 +178,25 @@ def check(ctx, run):
             md = [c for c in p.conds if c[0][0] == 'discr' and 'mode' in show(c[0])]
             if not writers:
                 continue
+            # `self.mode == Mode::X` tests on the same path must agree with the variant the match selects (the explorer does not relate them)
+            if md and md[0][1] == 'eq':
+                infeasible = False
+                for c in p.conds:
+                    t_ = c[0]
+                    if t_[0] == 'call' and canon(t_[1]).split('::')[-1] in ('eq', 'ne') and len(t_[2]) == 2 and 'mode' in show(t_) and isinstance(c[2], bool):
+                        k_ = [deref_all(a_) for a_ in t_[2]]
+                        cst = [a_ for a_ in k_ if agg_variant(a_) and a_[1][1].endswith('Mode')] + [a_ for a_ in k_ if a_[0] == 'const' and isinstance(a_[1], int)]
+                        if not cst:
+                            continue
+                        cv_ = cst[0]
+                        vi = modes.index(cv_[1][2]) if agg_variant(cv_) and cv_[1][2] in modes else (cv_[1] if cv_[0] == 'const' else None)
+                        if vi is None:
+                            continue
+                        same = (canon(t_[1]).split('::')[-1] == 'eq') == c[2]
+                        if same != (md[0][2] == vi):
+                            infeasible = True
+                if infeasible:
+                    continue
             if pred and pred[0][2] is True:
                 key = 'predicate'
                 rng = None
